@@ -655,6 +655,23 @@ def t_iterator_truthiness_and_len():
     out.append((f(), f([]), f(iter([])), f(zip([], []))))
     return out
 
+from collections import namedtuple
+_Pt = namedtuple('_Pt', ['x', 'y'])
+_Opt = namedtuple('_Opt', 'a b c', defaults=(2, 3))
+
+def t_namedtuples():
+    p = _Pt(1, y=2)
+    x, y = p
+    q = p._replace(x=9)
+    o = _Opt(1)
+    try:
+        _Pt(1)
+        err = 'no'
+    except TypeError:
+        err = 'TypeError'
+    return (p.x, p[1], x + y, tuple(q), q == _Pt(9, 2), isinstance(p, tuple), len(p), list(o), o.c, _Pt._fields, p._asdict() == {'x': 1, 'y': 2},
+            [a for a, b in [_Pt(1, 2), _Pt(3, 4)]], err, type(p).__name__, _Pt._make([5, 6]).y, p == (1, 2))
+
 def t_ordereddict_counter():
     from collections import OrderedDict
     od = OrderedDict([('b', 1), ('a', 2)])
